@@ -53,12 +53,13 @@ type GenOpts struct {
 	ModSubset   bool     // restrict flows to the modifier-mode subset
 	PAuto       float64  // probability that -auto-instrument applies (package level)
 	PShadow     float64  // probability that the enclosing function shadows generated identifiers
+	PBare       float64  // probability that argument values are passed as bare identifiers named like generated ones
 }
 
 // DefaultOpts is the broad mixture.
 func DefaultOpts() GenOpts {
 	return GenOpts{PPred: 0.2, PFallback: 0.15, PInstrument: 0.3, PEmitters: 0.3, PInstrD: 0.6, PWrap: 0.2,
-		PParallel: 0.35, PEnd: 0.4, PCOE: 0.5, MaxTasks: 7, PShadow: 0.15,
+		PParallel: 0.35, PEnd: 0.4, PCOE: 0.5, MaxTasks: 7, PShadow: 0.15, PBare: 0.15,
 		Spellings: []string{"lit", "lit", "lit", "top", "method", "funcvar", "callret", "imported"}, ExtTypes: true}
 }
 
@@ -240,6 +241,10 @@ func genCommon(t *rapid.T, s *rt.Spec, o GenOpts) {
 	s.Wrap = !o.ModSubset && prob(t, "wrap", o.PWrap)
 	if !o.ModSubset {
 		s.Shadow = prob(t, "shadow", o.PShadow)
+		if !s.Shadow && !s.Wrap && prob(t, "bare", o.PBare) {
+			s.Bare = true
+			s.Conc = "expr" // rendered as the last option, with the poisoning side effect
+		}
 		switch uniform(t, "encl", 8) {
 		case 0:
 			s.Encl = "closure"
